@@ -90,6 +90,7 @@ func c03One(c *core.Ctx, cs srcCase) {
 		return
 	}
 	c.NontrivialH(core.Hash(cs.Ver + cs.Aux + string(cs.Src)))
+	c.P.Trans++ // one model verdict replayed on the implementation
 	fam := famOf(v)
 	if cs.Aux == "invalid" {
 		c.Stat("model_invalid_programs", 1)
@@ -441,7 +442,7 @@ func init() {
 		Rule: "A (generic): every sentence of the E-lr corpora the reference LR driver accepts (rules, 2-paths; thorough: nullable combinations, 3-paths) under every version of its family, and every token replaced by every alternative lexeme (letter case, cast spellings, synonyms => the very same tree; literal forms => the same node kinds): zero errors, every token's text allowed by the slot vocabulary for the (kind, slot) holding it. " +
 			"B (operators): every flat expression with <= 3 (thorough 4) operators over 28 binary, 14 assignment, 18 prefix operators, ++/--, both ternaries and instanceof, distinct atoms, under 7.4 and 5.6: the tree must equal the one an independent precedence-climbing model of the PHP manual's operator table gives, and expressions the model rejects (non-associative chains) must be rejected. " +
 			"C: hand-written construct schemas (source => expected kind(role:child) rendering) for the constructs whose roles can be confused; D: every if/else nesting without braces to depth 3 (thorough 4) — else belongs to the nearest if; E: literal forms (int/float classification at the overflow boundary, radix prefixes, separators, strings, heredoc/nowdoc parts verbatim); F: version-gated constructs under 10 versions. " +
-			"states = flat expressions judged by the operator model, traces = corpus sentences classified by the reference driver and replayed on the real parser. non-trivial = program parsed; distinct by (version, expectation, source)",
+			"states = flat expressions enumerated and judged by the operator model, transitions = model verdicts (accept/reject/expected tree) replayed on the real parser, traces = corpus sentences classified by the reference LR driver and replayed. non-trivial = program parsed; distinct by (version, expectation, source)",
 		Assume: []string{"M-syn (mc/synm) transcribes the PHP manual: operator table, construct shapes, literal forms, version gating"},
 		Run:    c03Run,
 		Replay: replaySrc(c03One),
